@@ -351,6 +351,9 @@ func loopSchedules(r *core.Rng, s *gen.Stream, n int, pausey bool) []iosim.Sched
 
 func runLoopProp(prop string, r *core.Rng, run, seed uint64, tier string, cov *Cov, cfg gen.Cfg, nsched int) []*Violation {
 	doc := gen.Generate(r, cfg)
+	if prop == "C02" && r.Chance(0.08) && gen.Malform(r, doc) {
+		cov.Probe("malformed-dump")
+	}
 	s := gen.Render(doc)
 	ih := core.Hash(s.Bytes)
 	cov.Inputs[ih]++
